@@ -173,6 +173,31 @@ func (w *World) tokEq(x, y Str) *Term {
 			(y.tok != nil && y.tok.kind == "ip" && !ok1 && x.tok == nil && !x.opq && x.b == nil) {
 			return w.tt.F
 		}
+		// a byte string whose length no address print of that family can have is different
+		lenRule := func(t, o Str) bool {
+			if t.tok == nil || t.tok.kind != "ip" || o.tok != nil || o.opq || o.cat != nil {
+				return false
+			}
+			minL, maxL := 2, 39 // "::" ... full IPv6 (an embedded IPv4 form is at most 45; be generous)
+			maxL = 45
+			mapped := len(t.tok.ip) == 16
+			if mapped {
+				want := []uint64{0, 0, 0, 0, 0, 0, 0, 0, 0, 0, 0xff, 0xff}
+				for i, x := range want {
+					if c, ok := t.tok.ip[i].Const64(); !ok || c != x {
+						mapped = false
+						break
+					}
+				}
+			}
+			if mapped {
+				minL, maxL = 7, 15 // dotted quad
+			}
+			return o.Len() < minL || o.Len() > maxL
+		}
+		if lenRule(x, y) || lenRule(y, x) {
+			return w.tt.F
+		}
 		panic(pathEnd{"unsupported", "comparison of an abstract address string with a symbolic string"})
 	}
 	conj := make([]*Term, 16)
